@@ -19,6 +19,9 @@ func Assume(c bool)             { panic("vh stub") }
 func Assert(c bool, msg string) { panic("vh stub") }
 func Reach(tag string)          { panic("vh stub") }
 
+// ReachIf: tag reached if cond can hold here (no fork of the path).
+func ReachIf(cond bool, tag string) { panic("vh stub") }
+
 // Choice forks: returns a concrete value in [0,n) on each path.
 func Choice(name string, n int) int { panic("vh stub") }
 
